@@ -532,8 +532,14 @@ func TestOptionSequences(t *testing.T) {
 			}
 		}
 		// (only behind plain text: a byte such as '!' makes net/url keep the target in RawPath, where the percent sign reads %25)
-		plain := strings.IndexFunc(c.Pattern, func(r rune) bool {
-			return !(r >= 'a' && r <= 'z' || r >= 'A' && r <= 'Z' || r >= '0' && r <= '9' || strings.ContainsRune("/{}*._-", r))
+		static, last := "", 0
+		for _, w := range ref.Wildcards(c.Pattern) {
+			static += c.Pattern[last:w.Start]
+			last = w.End
+		}
+		static += c.Pattern[last:]
+		plain := strings.IndexFunc(static, func(r rune) bool {
+			return !(r >= 'a' && r <= 'z' || r >= 'A' && r <= 'Z' || r >= '0' && r <= '9' || strings.ContainsRune("/._-", r))
 		}) < 0
 		if ws := ref.Wildcards(c.Pattern); plain && gen.Chance(t, 1, 4, "percent") && (len(ws) == 0 || !ws[len(ws)-1].CatchAll || ws[len(ws)-1].End != len(c.Pattern)) {
 			// static text with a literal percent sign (a discount, an already escaped byte): text like any other
